@@ -262,10 +262,11 @@ void generate(uint64_t seed, const Str& profile, Desc& d, bool exceptions) {
         bool removals = world.chance(1, 3);
         dupNames = !removals && np >= 2 && world.chance(1, 6);      // two different plugins under one name: both are installed and both see every action (nothing is removed by name in such a run)
         if (dupNames) d.p["dup_plugin_names"] = 1;
+        bool prefixNames = world.chance(1, 4); if (prefixNames) d.p["plugin_names_continue_one_another"] = 1;
         d.p["remove_rev"] = (int64_t)world.below(2);
         d.p["remove_absent"] = world.chance(1, 3) ? (int64_t)world.range(1, 3) : 0;     // removals of a name that is not (or no longer) installed: nothing may change
         for (int p = 0; p < np; p++) {
-            Group P; P.tag = "plugin"; P.args.push_back(world.chance(5, 6)); P.args.push_back(removals && world.chance(1, 3)); P.sargs.push_back(sfmt("plug%d", dupNames && p == np - 1 ? 0 : p));
+            Group P; P.tag = "plugin"; P.args.push_back(world.chance(5, 6)); P.args.push_back(removals && world.chance(1, 3)); { int pn = dupNames && p == np - 1 ? 0 : p; P.sargs.push_back(prefixNames ? Str("p") + Str((size_t)pn + 1, '1') : sfmt("plug%d", pn)); }      // p1, p11, p111, ...: every name continues the one before
             int n = (int)world.range(0, 3);
             for (int i = 0; i < n; i++) { Op o; o.kind = K_MARK; o.phase = world.chance(1, 2) ? PH_PRE : PH_POST; o.d = ++opLine; P.ops.push_back(o); }
             if (f.pluginErr && world.chance(1, 3)) {
@@ -279,7 +280,7 @@ void generate(uint64_t seed, const Str& profile, Desc& d, bool exceptions) {
                 if (w2 == 0) { o.kind = K_DIE_SIGNAL; static const int sigs[] = { 1, 2, 6, 9, 11, 13, 15, 17 }; o.a = sigs[faults.below(8)]; } else if (w2 == 1) { o.kind = K_DIE_EXIT; o.a = (int64_t)faults.range(1, 255); } else { o.kind = K_DIE_ABORT; if (exceptions && faults.chance(1, 2)) o.b = 1; }      // b = 1: the action throws; nothing catches it outside the test phases, the child ends in std::terminate
                 P.ops.push_back(o);
             }
-            if (p >= 1 && !f.procReal && !f.procSyn && !dupNames && world.chance(1, 8)) { Op o; o.kind = K_PLUGIN_REMOVE; o.phase = PH_PRE; o.d = ++opLine; o.a = (int64_t)world.below((uint64_t)p); P.ops.push_back(o); }      // this plugin's pre action removes a plugin installed before it (one that sits behind it in the chain)
+            if (p >= 1 && !f.procReal && !f.procSyn && !dupNames && world.chance(1, 8)) { Op o; o.kind = K_PLUGIN_REMOVE; o.phase = PH_PRE; o.d = ++opLine; o.a = world.chance(1, 3) ? (int64_t)p : (int64_t)world.below((uint64_t)p); P.ops.push_back(o); }      // this plugin's pre action removes itself, or a plugin installed before it (one that sits behind it in the chain)
             // keep ops ordered by phase
             Vec<Op> pre, post; for (size_t i = 0; i < P.ops.size(); i++) (P.ops[i].phase == PH_PRE ? pre : post).push_back(P.ops[i]);
             P.ops = pre; P.ops.insert(P.ops.end(), post.begin(), post.end());
